@@ -9,6 +9,7 @@ CONSTANTS
   PhaseSet = {"created", "offerMade", "gathering", "checking", "iceConnected", "dtlsHandshaking", "dtlsConnected", "sctpConnecting", "channelsOpen", "renegotiating"}
   Ev1Set = {"Close", "Drop", "PeerCloseNotify", "PeerSctpAbort", "PeerSctpShutdown", "IceStop", "SocketLoss", "BlockedSender"}
   WfcBudget = 2
+  Answerer = FALSE
   Ev2Set = {"Close"}
 INVARIANTS TypeOK ReasonSet CloseAtMostOnce
 PROPERTIES TerminalIsStable CloseEventually ReportsTerminal LocalEndsClosed NoHang Released
